@@ -91,6 +91,7 @@ func trim(s string, n int) string {
 
 type replayFile struct {
 	Property  string          `json:"property"`
+	Part      string          `json:"part,omitempty"`
 	Signature string          `json:"signature,omitempty"`
 	Message   string          `json:"message,omitempty"`
 	Model     json.RawMessage `json:"model"`
@@ -157,7 +158,7 @@ func Run[M any](t *testing.T, p Prop[M]) {
 
 	writeReplay := func(m M, v Viol) string {
 		mb, _ := json.MarshalIndent(m, "", " ")
-		rf := replayFile{Property: p.ID, Signature: v.Signature, Message: v.Message, Model: mb}
+		rf := replayFile{Property: p.ID, Part: os.Getenv("VERIF_PART"), Signature: v.Signature, Message: v.Message, Model: mb}
 		b, _ := json.MarshalIndent(rf, "", " ")
 		dir := filepath.Join(known.Root(), "replays", p.ID)
 		_ = os.MkdirAll(dir, 0o755)
